@@ -221,6 +221,58 @@ pub fn spec(id: &str) -> Option<Spec> {
             worker_timeout_s: |t| t.pick(1200, 4 * 3600),
             rayon_threads: 1,
         },
+        "C12" => Spec {
+            id: "C12",
+            level: "exploration",
+            rule: "Projects (examples/, the Starknet cairo_level_tests crate with all its contracts; thorough: also \
+                   tests/bug_samples) are compiled repeatedly, each time on a fresh database inside a rayon pool of \
+                   1/2/4/16 threads (so the parallel warm-up runs), with seeded delays at every warm-up task boundary \
+                   (hook H4), a seeded prefix of unrelated queries (some on snapshots on other threads, another crate \
+                   first) and either query order; diagnostics, Sierra text with debug names, canonical Sierra, CASM and \
+                   contract-class JSON are compared byte for byte with a single-threaded reference. The hash of the \
+                   raw interned ids is the observed-schedule fingerprint; a project whose runs all share one \
+                   fingerprint is inconclusive. Non-trivial = distinct (project, config, schedule parameters) compared.",
+            floor: |t| t.pick(20, 150),
+            shards: |_| 1,
+            crash_is_violation: false,
+            assumptions: &["schedules are sampled; exact interleavings are not replayable, the replay repeats the schedule parameters 5 times"],
+            worker_timeout_s: |t| t.pick(1500, 5 * 3600),
+            rayon_threads: 16,
+        },
+        "C13" => Spec {
+            id: "C13",
+            level: "exploration",
+            rule: "Edit histories (quick 14, thorough 30 edits) on 1-3 files of an on-disk project (examples/; thorough \
+                   also tests/bug_samples) applied with override_file_content! to one long-lived RootDatabase: comments \
+                   at top/middle/end, blank lines, rename of one / all occurrences, statement and item insertion, line \
+                   and item deletion, item duplication, line swap, syntax-breaking edits repaired 1-4 steps later, \
+                   restore, override unset; between edits nothing / diagnostics only / everything is queried. At \
+                   comparison points the diagnostics string (with locations) and, if error-free, the Sierra text are \
+                   compared with a FRESH database given the same contents. salsa `executing query` events are counted \
+                   on both sides; non-trivial = distinct compared state where the incremental database executed < 90% \
+                   of the fresh one's queries.",
+            floor: |t| t.pick(150, 3000),
+            shards: |_| 16,
+            crash_is_violation: false,
+            assumptions: &["the fresh database gets the same contents through the same override mechanism"],
+            worker_timeout_s: |t| t.pick(1500, 5 * 3600),
+            rayon_threads: 1,
+        },
+        "C20" => Spec {
+            id: "C20",
+            level: "exploration",
+            rule: "For each optimization configuration a corelib cache blob is generated (generate_crate_cache) and two \
+                   databases are built that differ only in core's cache_file. Dependents (examples/ and a seeded sample \
+                   of e2e/examples snippets) are compiled on both: diagnostics string, Sierra text and CASM text must be \
+                   equal. Hook H3 counts lowerings served from the cache; non-trivial = distinct (dependent, config) \
+                   that compiled to Sierra with > 0 cache-served lowerings (the from-source side must report 0).",
+            floor: |t| t.pick(25, 150),
+            shards: |_| 8,
+            crash_is_violation: false,
+            assumptions: &["the cache is generated by the same build with the same optimization settings"],
+            worker_timeout_s: |t| t.pick(1500, 5 * 3600),
+            rayon_threads: 2,
+        },
         _ => return None,
     })
 }
@@ -240,6 +292,9 @@ pub fn worker(id: &str, ctx: &mut Ctx) {
         "C02" | "C04" | "C17" => crate::execchecks::exec_worker(ctx, id),
         "C14" | "C15" => crate::sierra_mut::sierra_worker(ctx, id),
         "C11" => crate::fmtchecks::c11_worker(ctx),
+        "C12" => crate::dbscen::c12_worker(ctx),
+        "C13" => crate::dbscen::c13_worker(ctx),
+        "C20" => crate::dbscen::c20_worker(ctx),
         "C16" => crate::casm_ref::c16_worker(ctx),
         "C18" => crate::serde_checks::c18_worker(ctx),
         "C19" => crate::classes::c19_worker(ctx),
@@ -255,6 +310,9 @@ pub fn replay(id: &str, case: &Value) -> Result<Option<String>, String> {
         "C02" | "C04" | "C17" => crate::execchecks::exec_replay(id, case),
         "C14" | "C15" => crate::sierra_mut::sierra_replay(id, case),
         "C11" => crate::fmtchecks::c11_replay(case),
+        "C12" => crate::dbscen::c12_replay(case),
+        "C13" => crate::dbscen::c13_replay(case),
+        "C20" => crate::dbscen::c20_replay(case),
         "C16" => crate::casm_ref::c16_replay(case),
         "C18" => crate::serde_checks::c18_replay(case),
         "C19" => crate::classes::c19_replay(case),
